@@ -1,4 +1,4 @@
-import Flurry.Lin
+import Flurry.Proto.BinK
 /-! # Proto/BinG: one bin lineage through kind changes AND a resize (C01, C05, C07, C08, C10)
 
 The union of `Proto/BinK` (a bin cell that is empty, a list bin or a tree bin, with treeify and
@@ -31,26 +31,11 @@ calls on that key are `Lin.Linearizable` from "absent" to the key's abstract sta
 namespace Flurry.Proto.BinG
 open Flurry.Lin
 
-structure NodeS where
-  key : Nat
-  val : Nat × Nat
-  next : Option Nat
-  /-- list node: the mutex inside it (the bin lock while it is the first node) -/
-  lock : Option Nat := none
-  /-- tree node: linked into the tree of its bin -/
-  inTree : Bool := false
-  /-- tree node: the `TreeBin` it belongs to -/
-  owner : Option Nat := none
-deriving Repr, DecidableEq
-
-/-- a `TreeBin` object -/
-structure TBin where
-  first : Option Nat := none
-  mutex : Option Nat := none
-  writer : Bool := false
-  waiter : Bool := false
-  readers : Nat := 0
-deriving Repr, DecidableEq
+/-! Nodes, `TreeBin` objects, pending calls and the list primitives are those of `Proto/BinK`
+(`NodeS`, `TBin`, `Pending`, `After`, `isReader`, `dflt`, `dfltB`, `chainFrom`, `copyChain`, `predOf`,
+`absentRes`), re-used verbatim so that the lemmas about them (`Lemmas/BinKChain.lean`,
+`Lemmas/BinKBasic.lean`) apply. -/
+export Flurry.Proto.BinK (NodeS TBin Pending After isReader dflt dfltB chainFrom copyChain predOf absentRes)
 
 inductive Cell where
   | empty
@@ -62,18 +47,6 @@ deriving Repr, DecidableEq
 
 /-- which table: the old one-cell table or the new two-cell table -/
 inductive Tab where | old | new
-deriving Repr, DecidableEq
-
-structure Pending where
-  key : Nat
-  op : KOp
-  inv : Nat
-deriving Repr, DecidableEq
-
-/-- what a tree-bin writer does once it holds the write lock -/
-inductive After where
-  | remove (i : Nat)
-  | insert
 deriving Repr, DecidableEq
 
 inductive Pc where
@@ -167,15 +140,8 @@ deriving Repr
 
 def init (nthreads : Nat) : State := { threads := List.replicate nthreads {} }
 
-def isReader : KOp → Bool
-  | .get | .has => true
-  | _ => false
-
 /-- the split bit of a key -/
 def hiBit (k : Nat) : Bool := k % 2 == 1
-
-def dflt : NodeS := ⟨0, (0, 0), none, none, false, none⟩
-def dfltB : TBin := {}
 
 def cellOf (s : State) (tab : Tab) (k : Nat) : Cell :=
   match tab with
@@ -186,14 +152,6 @@ def setCell (s : State) (tab : Tab) (k : Nat) (c : Cell) : State :=
   match tab with
   | .old => { s with cell0 := c }
   | .new => if hiBit k then { s with highCell := c } else { s with lowCell := c }
-
-def chainFrom (heap : List NodeS) : Nat → Option Nat → List Nat
-  | 0, _ => []
-  | _, none => []
-  | fuel + 1, some i =>
-    match heap[i]? with
-    | none => []
-    | some n => i :: chainFrom heap fuel n.next
 
 /-- the list of tree bin `b` -/
 def chainOfBin (s : State) (b : Nat) : List Nat := chainFrom s.heap s.heap.length (s.tbins.getD b dfltB).first
@@ -230,11 +188,6 @@ def finish (s : State) (t : Nat) (p : Pending) (res : KRes) : State :=
   { (setT s t { pc := .idle, call := none }) with
       hist := (p.key, { tid := t, op := p.op, res := res, inv := p.inv, resp := s.now }) :: s.hist }
 
-def predOf (c : List Nat) (i : Nat) : Option Nat :=
-  match c with
-  | a :: b :: rest => if b == i then some a else predOf (b :: rest) i
-  | _ => none
-
 /-- the single store of a list-bin writer in the cell of its key in table `tab` -/
 def storeAt (s : State) (tab : Tab) (p : Pending) (pred hit hnext : Option Nat) : State × KRes :=
   let append (v vi : Nat) : State :=
@@ -262,16 +215,6 @@ def storeAt (s : State) (tab : Tab) (p : Pending) (pred hit hnext : Option Nat) 
   | .cipRm, none => (s, .none)
   | .get, _ => (s, .none)
   | .has, _ => (s, .none)
-
-/-- copy the nodes `c` (in order) to the end of the heap with `mk`, chained by `next`; returns the
-new heap and the index of the first copy -/
-def copyChain (heap : List NodeS) (c : List Nat) (mk : NodeS → Option Nat → NodeS) : List NodeS × Option Nat :=
-  let base := heap.length
-  let n := c.length
-  let copies := (List.range n).map fun j =>
-    let src := heap.getD (c.getD j 0) dflt
-    mk src (if j + 1 < n then some (base + j + 1) else none)
-  (heap ++ copies, if n = 0 then none else some base)
 
 /-- the start of the last run of a chain (as `Proto/BinX`) -/
 def lastRunStart (heap : List NodeS) (c : List Nat) : Nat :=
@@ -318,8 +261,6 @@ def afterLock (tab : Tab) (b : Nat) (k : After) (res : KRes) : Pc :=
   match k with
   | .remove i => .tUnlinkLocked tab b i res
   | .insert => .tPrependLocked tab b
-
-def absentRes (op : KOp) : KRes := match op with | .has => .bool false | _ => .none
 
 /-- One step of thread `t`. `inv`: the call an idle thread starts; `listOnly`: that call is an
 iterator's read; `maint = some k`: an idle thread starts a treeify of the cell of key `k`;
